@@ -117,7 +117,12 @@ impl<'de, R: Reader<'de>> Deserializer<R> {
     where
         T: de::Deserialize<'de>,
     {
-        de::Deserialize::deserialize(self)
+        let value = tri!(de::Deserialize::deserialize(&mut *self));
+        // the bytes consumed for the value must be valid UTF-8: strings of a `Value` or the raw
+        // text of a `LazyValue` are handed out as `str`
+        let lossy = self.parser.cfg.utf8_lossy;
+        tri!(self.parser.check_invalid_utf8(lossy));
+        Ok(value)
     }
 
     /// Convert Deserializer to a [`StreamDeserializer`].
